@@ -33,6 +33,8 @@ class Check(HCheck):
         ops = [al.page(u, i % 2 == 0) for i, u in enumerate(l1)]
         ops += [al.page(l2[0]), al.create(l2[1]), al.addprefix(l1[1], 0), al.rule(l1[0], "path2"), al.links((l1[2], l2[0]), (l1[2], l2[0])), al.crawl((l1[0], (l1[1], l1[0])))]
         sp = [Space(Cfg("never"), ops, 5 if thorough else 4, name="long/never")]
+        vl = [A + L.long_stem(n, f) for n, f in ((700, b"a"), (2200, b"a"), (2200, b"b"), (4000, b"c"))]
+        sp.append(Space(Cfg("never"), [al.page(u, i % 2 == 0) for i, u in enumerate(vl)] + [al.page(vl[0] + b"p:k|"), al.create(vl[1]), al.rule(vl[2], "path2"), al.REOPEN], 4 if thorough else 3, name="long/very-long"))
         # every stem-length shape (lengths {3,74,75,148,149,222}, up to 3 stems) inserted in one go
         shapes = al.shape_lrus(3)
         prep = [al.R0, (al.page(A + L.long_stem(75, b"a")),), (al.page(A + L.long_stem(149, b"a") + b"p:k|"),)]
